@@ -73,6 +73,15 @@ def compose_task(datatype):
             if P.outcome != "return":
                 P.fail("no-exception", "aryule raises %s" % P.value.exc, replay=("aryule", hints))
                 return
+            if "corr" not in seen or "lev" not in seen:
+                # the code reaches its autocorrelation / recursion by another route: the modular composition over the contracts of
+                # CORRELATION (C09) and LEVINSON (C10) does not apply.  That is undecided, not a violation -- the statement itself
+                # is decided end to end on the real bodies by normal-eq.* and gram.* (and natively by the fallback below)
+                r_ = P.tc.add_result("composition-route", "unsupported",
+                                     detail="aryule does not call %s: composition over callee contracts not applicable" %
+                                            ("CORRELATION" if "corr" not in seen else "LEVINSON"))
+                r_.clause, r_.replay = "composition-route", ("aryule", hints)
+                return
             x, y, maxlags, norm = seen["corr"]
             P.prove("CORRELATION(X, maxlags=order)", V.b_and(V.s_eq(maxlags, st["p"]), V.s_eq(x.ident, st["x"].ident)), replay=("aryule", hints))
             if norm == "biased" and y is None:
@@ -119,7 +128,7 @@ def normal_eq_task(N, p, cx):
         r = biased_acf(x, p)
         E.eq("T(r^)[1,a]=[P,0..0] (model autocorrelation = sample autocorrelation on lags 0..p)",
              toeplitz_apply(r, [1] + A.to_list()), [Pv] + [0] * p)
-    return Task("normal-eq.%s.N%d.p%d" % ("complex" if cx else "real", N, p), run, kind="bounded", timeout=600,
+    return Task("normal-eq.%s.N%d.p%d" % ("complex" if cx else "real", N, p), run, kind="bounded", prerun=True, timeout=600,
                 functions=["spectrum.yulewalker.aryule"])
 
 
@@ -147,11 +156,34 @@ def gram_task(N, m, cx):
                 t = rl[i - j] if i >= j else V.s_conj(rl[j - i])
                 W.append(t * N)
         E.eq("C^H C = N*Toeplitz(r_biased)", G, W)
-    return Task("gram.%s.N%d.m%d" % ("complex" if cx else "real", N, m), run, kind="bounded", functions=["spectrum.linalg.corrmtx", "spectrum.correlation.CORRELATION"])
+    return Task("gram.%s.N%d.m%d" % ("complex" if cx else "real", N, m), run, kind="bounded", prerun=True, functions=["spectrum.linalg.corrmtx", "spectrum.correlation.CORRELATION"])
+
+
+def lpc_task(m, N):
+    """real data: lpc(x, N) returns the Yule-Walker coefficients -- two runs of the real code on the same symbolic samples,
+    lpc's FFT route (|FFT|^2 -> inverse FFT) evaluated with an exact 4- / 8-point transform"""
+    def run(tc):
+        names = ["x%d" % j for j in range(m)] + ["sqrt2"]
+        dom, I = e3_interp(tc, names)
+        E = E3(tc, dom, "lpc", {"N": m, "p": N}, tc.seed)
+        x = [dom.sym("x%d" % j) for j in range(m)]
+        yw = E.run(I, lambda I_: I_.call_qual("spectrum.yulewalker.aryule", Arr.from_items(list(x), dtype="float"), N, "biased"))
+        if yw is None:
+            return
+        lp = E.run(I, lambda I_: I_.call_qual("spectrum.lpc.lpc", Arr.from_items(list(x), dtype="float"), N))
+        if lp is None:
+            return
+        a = lp[0].to_list() if isinstance(lp[0], Arr) else list(lp[0])
+        E.eq("lpc-coefficients=Yule-Walker-coefficients", [V.Cx.of(v) for v in a], [V.Cx.of(v) for v in yw[0].to_list()])
+        # lpc normalises its autocorrelation by m-1 instead of m: the error scales accordingly (not part of the statement; recorded)
+        E.eq("lpc-error=m*P over (m-1)", lp[1], yw[1] * Fraction(m, m - 1))
+    return Task("lpc.real.N%d.p%d" % (m, N), run, kind="bounded", prerun=True, timeout=120, functions=["spectrum.lpc.lpc", "spectrum.tools.nextpow2"])
 
 
 def tasks(tier):
     ts = []
+    for (m, N) in ([(3, 1), (3, 2), (4, 1), (4, 2)] if tier == "quick" else [(2, 1), (3, 1), (3, 2), (4, 1), (4, 2), (4, 3)]):
+        ts.append(lpc_task(m, N))
     sizes = [(4, 1), (5, 2)] if tier == "quick" else [(4, 1), (5, 2), (6, 3)]
     for dt in ("real", "complex"):
         ts.append(compose_task(dt))
